@@ -1,7 +1,10 @@
 //! C08: transparent scheduler wrappers — MetricsScheduler (always present inside Runner),
-//! UncontrolledNondeterminismCheckScheduler (recording pass) — must hand the inner scheduler exactly
-//! the calls the runtime makes and return its answers unchanged.  The inner scheduler is the
-//! explorer, so "same calls" = the same choice tree, node by node.
+//! UncontrolledNondeterminismCheckScheduler (recording pass), AnnotationScheduler (its pass-through
+//! logic is compiled with or without the `annotation` feature) and the stop wrapper that
+//! PortfolioRunner puts around every member — must hand the inner scheduler exactly the calls the
+//! runtime makes and return its answers unchanged.  The inner scheduler is the explorer, so "same
+//! calls" = the same choice tree, node by node.  Bodies: four hand-written ones plus a sample of the
+//! generated programs of five E2 families.
 
 use crate::explore::{Explorer, Node, Options};
 use crate::prog::*;
@@ -36,7 +39,32 @@ fn path_hash(path: &[Node]) -> u64 {
 
 /// Explore the whole tree of a body with the explorer optionally wrapped; returns (executions,
 /// hash over the sequence of paths, panics mentioning nondeterminism).
-fn tree_signature(body: impl Fn() + Send + Sync + Clone + 'static, wrap: &dyn Fn(Explorer) -> DynSched, per_exec_runs: usize) -> (u64, u64, Vec<String>) {
+/// The explorer moved into the OS thread PortfolioRunner creates for its member.  Sound here because
+/// the creating thread only touches the shared explorer state again after `PortfolioRunner::run`
+/// has joined that thread.
+struct ForceSend(DynSched);
+unsafe impl Send for ForceSend {}
+impl Scheduler for ForceSend {
+    fn new_execution(&mut self) -> Option<Schedule> {
+        self.0.new_execution()
+    }
+    fn next_task(&mut self, r: &[&Task], c: Option<TaskId>, y: bool) -> Option<TaskId> {
+        self.0.next_task(r, c, y)
+    }
+    fn next_u64(&mut self) -> u64 {
+        self.0.next_u64()
+    }
+}
+
+/// How the (possibly wrapped) explorer is handed to the runtime
+#[derive(Clone, Copy, PartialEq)]
+enum Via {
+    Runner,
+    /// as the only member of a PortfolioRunner (which wraps it in its stop wrapper)
+    Portfolio,
+}
+
+fn tree_signature(body: impl Fn() + Send + Sync + Clone + 'static, wrap: &dyn Fn(Explorer) -> DynSched, via: Via) -> (u64, u64, Vec<String>) {
     let ex = Explorer::new(Options {
         rand_menu: vec![0, u64::MAX / 2 + 1],
         ..Options::default()
@@ -44,11 +72,17 @@ fn tree_signature(body: impl Fn() + Send + Sync + Clone + 'static, wrap: &dyn Fn
     let mut sig = DefaultHasher::new();
     let mut n = 0u64;
     let mut complaints = Vec::new();
-    let _ = per_exec_runs;
     loop {
         let b = body.clone();
-        let r = catch_unwind(AssertUnwindSafe(|| {
-            Runner::new(wrap(ex.handle()), base_config()).run(b);
+        let r = catch_unwind(AssertUnwindSafe(|| match via {
+            Via::Runner => {
+                Runner::new(wrap(ex.handle()), base_config()).run(b);
+            }
+            Via::Portfolio => {
+                let mut pr = shuttle_engine::PortfolioRunner::new(true, base_config());
+                pr.add(ForceSend(wrap(ex.handle())));
+                pr.run(b);
+            }
         }));
         if let Err(p) = r {
             let m = payload_to_string(&p);
@@ -68,7 +102,7 @@ fn tree_signature(body: impl Fn() + Send + Sync + Clone + 'static, wrap: &dyn Fn
     (n, sig.finish(), complaints)
 }
 
-fn bodies() -> Vec<(&'static str, std::sync::Arc<dyn Fn() + Send + Sync>)> {
+fn bodies(per_family: usize) -> Vec<(&'static str, std::sync::Arc<dyn Fn() + Send + Sync>)> {
     use shuttle::sync::{Arc, Condvar, Mutex};
     let mut v: Vec<(&'static str, std::sync::Arc<dyn Fn() + Send + Sync>)> = Vec::new();
     v.push((
@@ -136,16 +170,45 @@ fn bodies() -> Vec<(&'static str, std::sync::Arc<dyn Fn() + Send + Sync>)> {
             });
         }),
     ));
+    // a sample of the generated programs (every k-th of each family's quick set)
+    fn sample<F: Family>(v: &mut Vec<(&'static str, std::sync::Arc<dyn Fn() + Send + Sync>)>, progs: Vec<Program<F>>, want: usize) {
+        let k = (progs.len() / want).max(1);
+        for (i, p) in progs.into_iter().enumerate() {
+            if i % k != 0 {
+                continue;
+            }
+            let name: &'static str = Box::leak(format!("{} #{}", F::NAME, i).into_boxed_str());
+            let arc = std::sync::Arc::new(SS(p));
+            v.push((
+                name,
+                std::sync::Arc::new(move || {
+                    // fresh logs per execution: nothing of the harness survives a body
+                    let logs: Logs<F::Res> = Default::default();
+                    let auxs: AuxLogs = Default::default();
+                    make_body::<F>(&arc, &logs, &auxs)()
+                }),
+            ));
+        }
+    }
+    sample(&mut v, crate::fam_lock::program_set("quick"), per_family);
+    sample(&mut v, crate::fam_sync::program_set("quick"), per_family);
+    sample(&mut v, crate::fam_mpsc::program_set("quick"), per_family);
+    sample(&mut v, crate::fam_thread::program_set("quick"), per_family);
+    sample(&mut v, crate::fam_async::program_set("quick"), per_family);
     v
 }
 
-pub fn run() -> Value {
+/// Bodies `shard`, `shard + nshards`, ... of the list (`per_family` generated programs per family).
+pub fn run(per_family: usize, shard: usize, nshards: usize) -> Value {
     crate::common::silence_panics();
     let mut mismatches = Vec::new();
     let mut rows = Vec::new();
-    for (name, body) in bodies() {
+    for (i, (name, body)) in bodies(per_family).into_iter().enumerate() {
+        if i % nshards != shard {
+            continue;
+        }
         let b0 = body.clone();
-        let plain = tree_signature(move || b0(), &|e| DynSched(Box::new(e)), 1);
+        let plain = tree_signature(move || b0(), &|e| DynSched(Box::new(e)), Via::Runner);
         let wraps: Vec<(&str, Box<dyn Fn(Explorer) -> DynSched>)> = vec![
             (
                 "MetricsScheduler",
@@ -156,9 +219,25 @@ pub fn run() -> Value {
                 Box::new(|e| DynSched(Box::new(shuttle_schedulers::UncontrolledNondeterminismCheckScheduler::new(e)))),
             ),
         ];
-        for (wname, w) in wraps {
+        let wraps: Vec<(&str, Box<dyn Fn(Explorer) -> DynSched>, Via)> = wraps
+            .into_iter()
+            .map(|(n, w)| (n, w, Via::Runner))
+            .chain([
+                (
+                    "AnnotationScheduler",
+                    Box::new(|e: Explorer| DynSched(Box::new(shuttle_schedulers::AnnotationScheduler::new(e)))) as Box<dyn Fn(Explorer) -> DynSched>,
+                    Via::Runner,
+                ),
+                (
+                    "PortfolioRunner's stop wrapper",
+                    Box::new(|e: Explorer| DynSched(Box::new(e))) as Box<dyn Fn(Explorer) -> DynSched>,
+                    Via::Portfolio,
+                ),
+            ])
+            .collect();
+        for (wname, w, via) in wraps {
             let b1 = body.clone();
-            let got = tree_signature(move || b1(), &*w, 1);
+            let got = tree_signature(move || b1(), &*w, via);
             rows.push(json!({"body": name, "wrapper": wname, "executions_plain": plain.0, "executions_wrapped": got.0}));
             if got.0 != plain.0 || got.1 != plain.1 || !got.2.is_empty() {
                 mismatches.push(json!({"body": name, "wrapper": wname, "plain": [plain.0, plain.1], "wrapped": [got.0, got.1], "complaints": got.2.iter().take(2).collect::<Vec<_>>()}));
